@@ -905,9 +905,10 @@ impl BrokenDownTime {
             (Some(offset), Some(iana)) => {
                 let tz = db.get(iana)?;
                 let azdt = OffsetConflict::Reject.resolve(dt, offset, tz)?;
-                // Guaranteed that if OffsetConflict::Reject doesn't reject,
-                // then we get back an unambiguous zoned datetime.
-                let zdt = azdt.unambiguous().unwrap();
+                // If OffsetConflict::Reject doesn't reject, then we get back
+                // an unambiguous zoned datetime. This can still fail when the
+                // instant is outside the supported timestamp range.
+                let zdt = azdt.unambiguous()?;
                 Ok(zdt)
             }
         }
